@@ -354,8 +354,22 @@ int main(int argc, char** argv) {
             off += llabs(Mi[x][y]);
           }
         Mi[x][x] = (off + 1 + (long long)r.below(4)) * (r.chance(50) ? 1 : -1);
-        for (int y = 0; y < 4; y++) M.m[x][y] = (double)Mi[x][y];
       }
+      // unit pivots: some lines have no off-diagonal entries and a diagonal of +-1, while the other lines keep entries
+      // in that position (a pivot that is already "normalised"); also the transposed arrangement
+      if (i % 3 == 1) {
+        for (int x = 0; x < 4; x++)
+          if (r.chance(45)) {
+            for (int y = 0; y < 4; y++)
+              if (y != x) Mi[x][y] = 0;
+            Mi[x][x] = r.chance(70) ? 1 : -1;
+          }
+      }
+      if (i % 6 == 4)
+        for (int x = 0; x < 4; x++)
+          for (int y = x + 1; y < 4; y++) swap(Mi[x][y], Mi[y][x]);
+      for (int x = 0; x < 4; x++)
+        for (int y = 0; y < 4; y++) M.m[x][y] = (double)Mi[x][y];
       Matrix4<double> X = r.chance(50) ? M.inverse() : Matrix4<double>(M).invert();
       if (i) {
         m += ","; xhi += ","; xlo += ",";
